@@ -97,6 +97,12 @@ type universe struct {
 	// metricUsed is set once a run has asked an Android metric name.
 	metricUsed bool
 
+	// pwDev has just had its password changed from pwOld; pwLeft requests
+	// may still be steered to it, with the old password and with the new.
+	pwDev  *devSpec
+	pwOld  string
+	pwLeft int
+
 	// asked are the questions asked so far (for repeats).
 	asked []*request
 
@@ -883,6 +889,12 @@ func run(s *kernel.Sim, prop, cfg string) {
 			default:
 				d := kernel.Pick(t, u.devs, "changed-device")
 				if !d.auto {
+					oldPw := d.password
+					defer func() {
+						if oldPw != "" && d.password != "" && d.password != oldPw {
+							u.pwDev, u.pwOld, u.pwLeft = d, oldPw, 4
+						}
+					}()
 					d.authOn, d.dohOnly, d.password, d.badHash = false, false, "", nil
 					switch t.Choose(7, "auth") {
 					case 5:
@@ -1207,6 +1219,39 @@ func genRequest(t *kernel.Tape, u *universe, servers map[string]*agd.Server, kin
 
 	if t.Chance(1, 6, "client-subnet-option") {
 		r.ecs = kernel.Pick(t, []string{"100.70.0.0/24", "100.71.0.0/24", "203.0.113.0/24", "198.51.100.0/24", "0.0.0.0/0"}, "ecs")
+	}
+
+	if prop == "C03" && u.pwLeft == 0 && t.Chance(1, 8, "password-used") {
+		// A device with a password uses it over DoH, as it is.
+		var withPw []*devSpec
+		for _, d := range u.devs {
+			if d.authOn && d.password != "" && d.badHash == nil && !d.auto {
+				withPw = append(withPw, d)
+			}
+		}
+		if len(withPw) > 0 {
+			u.pwDev = withPw[t.Choose(len(withPw), "device-with-password")]
+			u.pwOld = u.pwDev.password
+			u.pwLeft = 1
+		}
+	}
+	if u.pwLeft > 0 && prop == "C03" {
+		u.pwLeft--
+		if u.pwOld == u.pwDev.password || t.Chance(1, 2, "after-password-change") {
+			// A device whose password has just changed, over DoH with basic
+			// authentication: the old password, or the new one.
+			for _, k := range kinds {
+				if servers[k].Protocol == agd.ProtoDoH {
+					r.srvKind, r.srv = k, servers[k]
+				}
+			}
+			if r.srv.Protocol == agd.ProtoDoH {
+				r.local = netip.AddrPort{}
+				r.cpeID, r.sni, r.urlPath = "", "", "/dns-query"
+				r.user, r.hasPass = string(u.pwDev.id), true
+				r.pass = kernel.Pick(t, []string{u.pwOld, u.pwOld, u.pwDev.password}, "which-password")
+			}
+		}
 	}
 
 	if prop == "C15" {
